@@ -8,22 +8,28 @@
    commit entries appended, then the commit log fsynced, then the acknowledgement) and the projected
    observables must agree (logical offset and size of every tx record, number of transactions per
    commit, committed id after each commit-log fsync, whether the hash tree fsynced during the
-   precommit, and at every acknowledgement of tx k: k is acknowledged in the model and its commit
+   precommit and during sync(), and at every acknowledgement of tx k: k is acknowledged in the model and its commit
    entry, tx record and value extent lie in the DURABLE part of their files).
    CRec: the same schedule cut at a crash point, a crash image chosen per file class (durable
    content only, or everything handed to the OS); the model's `recover` must agree with the real
-   store.Open on: success, recovered committed id, number of reloaded precommitted transactions.
+   store.Open on: success, recovered committed id, number of reloaded precommitted transactions
+   (which depends on whether their VALUES are in the value-log image: the values of one transaction
+   are one extent of the model, the run of value appends that precedes its tx record in the trace).
 
    The model is run with a cheap 32-byte hash: no hash VALUE is compared with the real store
    (record bodies are abstract), only lengths, offsets, orders and verdicts. *)
 From V Require Export Base.Hex Crash.Storage Crash.Protocol Crash.ToyHash.
+
+(* which code the model is compared with: false = store.sync() does not fsync the hash tree (the
+   code as it is); true = the proposed repair fixes/C03-aht-stale-committed-leaf.diff is applied *)
+Definition repair_applied : bool := false.
 
 (* what was observed after an operation *)
 Inductive obs :=
 | ONone
 | OOff (off : N)                       (* OVal: logical offset returned by the first Append *)
 | OTx (off size : N) (ahtsync : bool)  (* OPre: tx record offset, size; did the tree fsync *)
-| OCnt (n : N)                         (* OSyncTx: number of commit entries appended *)
+| OCnt (n : N) (ahtsync : bool)        (* OSyncTx: commit entries appended; did the tree fsync in sync() *)
 | OCommitted (c : N).                  (* OSyncC: committed id afterwards *)
 
 Inductive item :=
@@ -40,6 +46,7 @@ Inductive case :=
 Definition values_durable (s : st) (body : bytes) : bool :=
   match body_vref body with
   | Some (v, vo, vn, _) =>
+      (vn =? 0) ||
       match nth_error (vls s) (N.to_nat v) with
       | Some f => vo + vn <=? len (durable f)
       | None => false
@@ -75,7 +82,8 @@ Definition obs_ok (s0 s1 : st) (o : op) (e : obs) : bool :=
           Bool.eqb ahtsync (negb (alatest s1 =? alatest s0))
       | None => false
       end
-  | OCnt n => N.of_nat (length (pbuf s0)) =? n
+  | OCnt n ahtsync =>
+      (N.of_nat (length (pbuf s0)) =? n) && Bool.eqb ahtsync (negb (alatest s1 =? alatest s0))
   | OCommitted c => committed s1 =? c
   end.
 
@@ -97,9 +105,9 @@ Definition image_by (p : pol) (s : st) : images :=
 
 Definition case_ok (c : case) : bool :=
   match c with
-  | CRun thld maxact nv items => run_items (init Hc (mkCfg thld maxact false 0) nv) items
+  | CRun thld maxact nv items => run_items (init Hc (mkCfg thld maxact false 0 repair_applied) nv) items
   | CRec thld maxact nv ops p ok c reloaded =>
-      let cf := mkCfg thld maxact false 0 in
+      let cf := mkCfg thld maxact false 0 repair_applied in
       match run Hc (init Hc cf nv) ops with
       | Ok s =>
           match recover Hc cf (image_by p s) with
